@@ -120,7 +120,7 @@ def raw_rank(draw, rank: int, epoch: int, fractional: bool) -> Dict[str, Any]:
 
 @st.composite
 def raw_case(draw) -> Dict[str, Any]:
-    nranks = pick(draw, [1, 2, 2, 3, 4])
+    nranks = pick(draw, [1, 2, 2, 3, 9, 4, 2, 3, 2, 3, 4, 1])  # 9: more than 8 ranks -> the pooled loader sizes its pool by memory profiling
     epoch = pick(draw, EPOCHS)
     fractional = pick(draw, [True, False])
     ranks = [draw(raw_rank(r, epoch + (pick(draw, [0, 3, 17]) if r else 0), fractional)) for r in range(nranks)]
